@@ -16,7 +16,7 @@ a scratch worktree of /repo and asked for two changes each that break the proper
 something specific to manifest. Waves b to g were additionally told which ideas earlier agents had produced (never what
 my checks look for) and pushed towards cooperating sites, state surviving between calls, rare branches, ordering
 dependence, error paths, boundary values, tolerance, unusual-but-legal use two calls below the named mechanisms, argument forms, objects used in two places and
-interactions of two public calls, refused calls after which the same objects are used on, values computed once and reused, copies, class-level state, sizes one beyond what examples use, returned objects that are internals, identifiers and counters, array types, order among equals and shared settings objects. An eighth, short wave h (five agents, one change each, 8-minute deadline; briefs in `seeded/prompts/prompt_*_h.txt`) gave three more confirmed changes (C01_h1, C13_h1, C19_h1) and two rejected at intake because the pinned suite catches them (C07_h1 `remove_qubit` row pairing: 2 stable hybrid-solver tests fail; C12_h1 `find_incompatible_edges` seeds dropped: 6 stable solver tests fail; both were nevertheless caught by the C07 / C12 quick checks). C01_h1 (deterministic Z outcome as the parity of sign bits) was MISSED by the C01 check as it stood - uniform random programs almost never make an outcome deterministic only through a product of several rows with a net i*i - and is caught since the C01 workload has measure-everything tails and compute/perturb/uncompute programs; its detection rate stays thin (1-3 violations per quick batch), which is stated rather than hidden. Every change was taken in through `tools/intake_seeded.py`: the
+interactions of two public calls, refused calls after which the same objects are used on, values computed once and reused, copies, class-level state, sizes one beyond what examples use, returned objects that are internals, identifiers and counters, array types, order among equals and shared settings objects. An eighth, short wave h (five agents, one change each, 8-minute deadline; briefs in `seeded/prompts/prompt_*_h.txt`) gave three more confirmed changes (C01_h1, C13_h1, C19_h1) and two rejected at intake because the pinned suite catches them (C07_h1 `remove_qubit` row pairing: 2 stable hybrid-solver tests fail; C12_h1 `find_incompatible_edges` seeds dropped: 6 stable solver tests fail; both were nevertheless caught by the C07 / C12 quick checks). C01_h1 (deterministic Z outcome as the parity of sign bits) was MISSED by the C01 check as it stood - uniform random programs almost never make an outcome deterministic only through a product of several rows with a net i*i - and is caught since the C01 workload has measure-everything tails and compute/perturb/uncompute programs; its detection rate stays thin (about 1.5 violations per 5000 runs, so the quick tier now does 12000 runs: at 5000 runs seeds 0,1,2,4,5,6 caught it and seed 3 missed; at 12000 runs seed 3 catches it with 3 violations), which is stated rather than hidden. Every change was taken in through `tools/intake_seeded.py`: the
 patch applies to /repo HEAD, `demo.py` exits 1 with it and 0 without it, and the **full pinned suite still has all 246
 stable tests passing** with the change (`tools/baseline.py <scratch worktree>`); only then is it stored as
 `seeded/<name>/{{patch.diff,demo.py,notes.md,meta.json}}`. {n} changes were confirmed; one more (C12_d1: `_remove_node`
